@@ -30,6 +30,9 @@ func TestMain(m *testing.M) { ev.Main(m) }
 
 const checkName = "geometry"
 
+// a C01 finding (time/size blow-up); only used to keep C12 campaigns from spending minutes per case
+const findingC01MorxLengthBudget = "C01-morx-insertion-length-budget"
+
 // Tolerances (stated, due to the integer pipeline):
 const (
 	// LineBounds and nominal advances: the library rounds font units × scale / upem once (float32);
@@ -427,6 +430,13 @@ func checkCase(t ev.TB, c sc.Case) {
 	}
 	fail := func(err error) { ev.Fail(t, checkName, c, "%v", err) }
 	info := faceInfo(&c)
+	if ev.Known(findingC01MorxLengthBudget) && info.Traits.Morx && c.RunEnd-c.RunStart > 64 {
+		// listed C01 finding: morx insertion beyond the length budget costs minutes per case;
+		// while it is open that value class is counted, not executed (DESIGN §1.5 (3))
+		ev.Excluded(findingC01MorxLengthBudget)
+		ev.Case(false, c, "excluded:"+findingC01MorxLengthBudget+"(not executed)")
+		return
+	}
 	out, p := sc.RunShaping(&c, face)
 	if p != nil {
 		// a panic is a C01 violation, not a geometry one; the case is counted and skipped
